@@ -236,22 +236,32 @@ type c25Res struct {
 }
 
 type c25Replay struct {
-	MCS    int      `json:"mcs"`
-	Events []string `json:"events"`
+	MCS     int      `json:"mcs"`
+	Workers int      `json:"workers"`
+	Events  []string `json:"events"`
 }
+
+// c25Cfg is one server configuration: grpc.MaxConcurrentStreams (0: not set)
+// and grpc.NumStreamWorkers (0: not set, a goroutine per stream).
+type c25Cfg struct{ MCS, Workers int }
 
 const c25HandshakeTimeout = 120 * time.Second // grpc.Server's default ConnectionTimeout
 
-func c25HistString(mcs int, evs []string) string {
+func c25HistString(cfg c25Cfg, evs []string) string {
 	m := "unlimited"
-	if mcs > 0 {
-		m = strconv.Itoa(mcs)
+	if cfg.MCS > 0 {
+		m = strconv.Itoa(cfg.MCS)
 	}
-	return "mcs=" + m + ": " + strings.Join(evs, " ")
+	w := ""
+	if cfg.Workers > 0 {
+		w = fmt.Sprintf(",workers=%d", cfg.Workers)
+	}
+	return "mcs=" + m + w + ": " + strings.Join(evs, " ")
 }
 
-func c25Run(t *testing.T, mcs int, maxArr int, evs []string, verbose bool) (res c25Res) {
+func c25Run(t *testing.T, cfg c25Cfg, maxArr int, evs []string, verbose bool) (res c25Res) {
 	res.abortAt = -1
+	mcs := cfg.MCS
 	synctest.Test(t, func(t *testing.T) {
 		gBase := runtime.NumGoroutine()
 		fail := func(key, format string, a ...any) {
@@ -266,6 +276,9 @@ func c25Run(t *testing.T, mcs int, maxArr int, evs []string, verbose bool) (res 
 		opts := []grpc.ServerOption{grpc.ForceServerCodecV2(c25Codec{})}
 		if mcs > 0 {
 			opts = append(opts, grpc.MaxConcurrentStreams(uint32(mcs)))
+		}
+		if cfg.Workers > 0 {
+			opts = append(opts, grpc.NumStreamWorkers(uint32(cfg.Workers)))
 		}
 		srv := grpc.NewServer(opts...)
 		srv.RegisterService(&grpc.ServiceDesc{
@@ -412,7 +425,20 @@ func c25Run(t *testing.T, mcs int, maxArr int, evs []string, verbose bool) (res 
 				}
 			}
 			if mcs > 0 && (run1 > mcs || s.maxRunning > mcs) {
-				fail(fmt.Sprintf("handlers-over-limit/mcs=%d", mcs), "after %s: %d handlers running now, peak %d, on connection 1 with MaxConcurrentStreams=%d", after, run1, s.maxRunning, mcs)
+				fail(fmt.Sprintf("handlers-over-limit/mcs=%d", mcs), "after %s: %d handlers running now, peak %d, on connection 1 with MaxConcurrentStreams=%d (NumStreamWorkers=%d)", after, run1, s.maxRunning, mcs, cfg.Workers)
+			}
+			// a stream the server had to admit waits for a handler slot only while
+			// every slot is taken: once a handler returns it is served
+			if mcs > 0 && run1 < mcs && !stopCalled {
+				started := map[int]bool{}
+				for _, k := range s.starts {
+					started[k] = true
+				}
+				for k := 1; k <= sent; k++ {
+					if accepted[k] && !started[k] && !cancelled[k] && !connGone(k) {
+						fail(fmt.Sprintf("waiting-rpc-not-served-with-free-slot/mcs=%d", mcs), "after %s: RPC %d was admitted and is undisturbed, its handler has not started although only %d of %d handler slots are taken (NumStreamWorkers=%d)", after, k, run1, mcs, cfg.Workers)
+					}
+				}
 			}
 			gsRetMu.Lock()
 			gr := gsRet
@@ -764,14 +790,14 @@ func c25NewCrash(r *vk.Run) *c25Crash {
 	return c
 }
 
-func (c *c25Crash) pending(mcs int, evs []string) {
+func (c *c25Crash) pending(mcs c25Cfg, evs []string) {
 	if c.path == "" {
 		return
 	}
 	hs := c25HistString(mcs, evs)
 	v := vk.Violation{Property: c25P, Key: "worker-died/" + hs,
 		Desc:   "the worker process died (panic, fatal error, bubble deadlock) or was killed while running this history: " + hs,
-		Replay: c25Replay{MCS: mcs, Events: evs}}
+		Replay: c25Replay{MCS: mcs.MCS, Workers: mcs.Workers, Events: evs}}
 	out := map[string]any{"leg": c.r.Leg, "shard": c.shard, "nshards": c.n, "tier": c.r.Tier(), "seed": c.r.Seed(),
 		"props": map[string]any{}, "violations": append(append([]vk.Violation(nil), c.prev...), v), "engine_errors": []string{}, "wall_s": 0, "complete": false}
 	b, _ := json.Marshal(out)
@@ -861,14 +887,15 @@ func TestVerif_C25_ServerStop(t *testing.T) {
 			r.EngineError("replay: %v", err)
 			return
 		}
-		res := c25Run(t, rp.MCS, c25MaxK, rp.Events, true)
-		fmt.Printf("[c25 replay] %s\n  %s\n  abortAt=%d obs=%v\n  server frames: %s\n", c25HistString(rp.MCS, rp.Events), strings.Join(res.trace, "\n  "), res.abortAt, res.obs, res.log)
+		rcfg := c25Cfg{rp.MCS, rp.Workers}
+		res := c25Run(t, rcfg, c25MaxK, rp.Events, true)
+		fmt.Printf("[c25 replay] %s\n  %s\n  abortAt=%d obs=%v\n  server frames: %s\n", c25HistString(rcfg, rp.Events), strings.Join(res.trace, "\n  "), res.abortAt, res.obs, res.log)
 		for _, f := range res.fails {
 			r.Violation(c25P, f.Key, f.Desc, rp)
 		}
 		r.Eval(c25P, 1)
 		r.NontrivialN(c25P, 2)
-		r.Sample(c25P, c25HistString(rp.MCS, rp.Events))
+		r.Sample(c25P, c25HistString(rcfg, rp.Events))
 		return
 	}
 
@@ -883,12 +910,15 @@ func TestVerif_C25_ServerStop(t *testing.T) {
 		name   string
 		events []string
 		maxArr int // RPCs on connection 1
-		mcs    []int
+		cfgs   []c25Cfg
 		depth  int
 	}
 	scns := []scenario{
-		{"one-connection", c25Events, c25MaxK, []int{1, 2, 0}, r.Pick(7, 12)},
-		{"two-connections", c25Events2, 1, []int{1, 0}, r.Pick(7, 10)},
+		// NumStreamWorkers 0: the default goroutine-per-stream dispatch
+		{"one-connection", c25Events, c25MaxK, []c25Cfg{{1, 0}, {2, 0}, {0, 0}}, r.Pick(7, 12)},
+		{"two-connections", c25Events2, 1, []c25Cfg{{1, 0}, {0, 0}, {1, 1}}, r.Pick(7, 10)},
+		// stream workers: a stream goes to an idle worker or, if none, to a new goroutine
+		{"one-connection-stream-workers", c25Events, c25MaxK, []c25Cfg{{1, 1}, {1, 2}, {2, 1}, {2, 2}}, r.Pick(6, 9)},
 	}
 	var nEval, nNontriv, nStatic, nDyn int64
 	capped := false
@@ -897,7 +927,7 @@ func TestVerif_C25_ServerStop(t *testing.T) {
 		r.Set(c25P, sc.name+"_max_alphabet", len(sc.events))
 		D, nE, events := sc.depth, len(sc.events), sc.events
 		sampled := 0
-		for _, mcs := range sc.mcs {
+		for ci, mcs := range sc.cfgs {
 			for L := 1; L <= D; L++ {
 				seq := make([]int, L)
 				// advance the odometer at position p; false when exhausted
@@ -936,7 +966,7 @@ func TestVerif_C25_ServerStop(t *testing.T) {
 					for i := 0; i < pl; i++ {
 						pi = pi*nE + seq[i]
 					}
-					if !r.Mine(pi*7 + L + mcs + 3*si) {
+					if !r.Mine(pi*7 + L + ci + 3*si) {
 						more = adv(pl - 1)
 						continue
 					}
@@ -951,7 +981,7 @@ func TestVerif_C25_ServerStop(t *testing.T) {
 					}
 					for _, f := range res.fails {
 						hs := c25HistString(mcs, evs)
-						v := vk.Violation{Property: c25P, Key: f.Key, Desc: f.Desc + " | history: " + hs, Replay: c25Replay{MCS: mcs, Events: evs}}
+						v := vk.Violation{Property: c25P, Key: f.Key, Desc: f.Desc + " | history: " + hs, Replay: c25Replay{MCS: mcs.MCS, Workers: mcs.Workers, Events: evs}}
 						dup := false
 						for _, p := range crash.prev {
 							if p.Key == v.Key {
